@@ -242,6 +242,7 @@ func liveness(run *rep.Run, rng *rand.Rand, s *stk, b *backend.Std, id int) {
 		chunked := rng.Intn(4) != 0
 		nonce := fmt.Sprintf("l%di%d", id, i)
 		var cl *streamingClient
+		var clPub atomic.Pointer[streamingClient] // the backend's gate may run before startRequest has returned
 		released := make([]atomic.Bool, nChunks+1)
 		seenBeforeNext := make([]bool, nChunks)
 		var off int64
@@ -267,13 +268,19 @@ func liveness(run *rep.Run, rng *rand.Rand, s *stk, b *backend.Std, id int) {
 					}
 					// do not send chunk k before the client has chunk k-1 (watchdog 5 s where live
 					// delivery is expected; 250 ms where buffering is legitimate and only wholeness is judged)
-					if cl.waitBytes(offs[k-1], gateWait) {
+					c := clPub.Load()
+					for w := 0; c == nil && w < 5000; w++ {
+						time.Sleep(time.Millisecond)
+						c = clPub.Load()
+					}
+					if c != nil && c.waitBytes(offs[k-1], gateWait) {
 						seenBeforeNext[k-1] = true
 					}
 					released[k].Store(true)
 				}}
 		})
 		cl = startRequest(s.base, nonce, 40*time.Second)
+		clPub.Store(cl)
 		select {
 		case <-cl.done:
 		case <-time.After(45 * time.Second):
